@@ -19,6 +19,9 @@ pub struct Call {
     pub timeout_ms: u64,
     pub beh: Behaviour,
     pub cancel: CancelSpec,
+    /// microseconds added to the (per-request) timeout: timeouts need not be whole milliseconds
+    #[serde(default)]
+    pub frac_us: u32,
 }
 
 #[derive(Clone, Debug, Serialize, Deserialize, PartialEq)]
@@ -31,6 +34,9 @@ pub struct Scn {
     pub listener_panic: bool,
     pub calls: Vec<Call>,
     pub knobs: SchedKnobs,
+    /// microseconds added to the fixed timeout
+    #[serde(default)]
+    pub fixed_frac_us: u32,
 }
 
 pub fn gen(rng: &mut Rng) -> Scn {
@@ -59,6 +65,7 @@ pub fn gen(rng: &mut Rng) -> Scn {
                 yields: *rng.pick(&[0u8, 0, 0, 1, 2]),
             },
             cancel: gen_cancel(rng, start_ms, 8),
+            frac_us: if rng.chance(1, 5) { *rng.pick(&[1u32, 400, 500, 900, 999]) } else { 0 },
         });
     }
     Scn {
@@ -67,6 +74,7 @@ pub fn gen(rng: &mut Rng) -> Scn {
         flag_first: rng.chance(1, 2),
         listener_panic: rng.chance(1, 8),
         calls,
+        fixed_frac_us: if rng.chance(1, 5) { *rng.pick(&[1u32, 400, 500, 900, 999]) } else { 0 },
         knobs: SchedKnobs::gen(rng, true, 80),
     }
 }
@@ -78,6 +86,8 @@ pub fn valid(s: &Scn) -> bool {
         && s.fixed_timeout.map(|t| t <= 200 || t == u64::MAX).unwrap_or(true)
         && s.knobs.jumps.len() <= 3
         && s.knobs.jumps.iter().all(|j| j.0 <= 300 && j.1 <= 200)
+        && s.fixed_frac_us <= 999
+        && s.calls.iter().all(|c| c.frac_us <= 999)
 }
 
 fn map_out(r: Result<crate::inner::Resp, TimeLimiterError<SimErr>>) -> Out {
@@ -108,10 +118,16 @@ pub fn run(s: &Scn, ctx: &mut RunCtx) -> RunOutput {
     world::reset();
     let cfg = s.knobs.cfg(ctx, 2000, 400);
     let scn = s.clone();
+    // timeouts in microseconds (u64::MAX = Duration::MAX)
     let touts: Vec<u64> = s
         .calls
         .iter()
-        .map(|c| s.fixed_timeout.unwrap_or(c.timeout_ms))
+        .map(|c| match s.fixed_timeout {
+            Some(u64::MAX) => u64::MAX,
+            Some(t) => t * 1000 + s.fixed_frac_us as u64,
+            None if c.timeout_ms == u64::MAX => u64::MAX,
+            None => c.timeout_ms * 1000 + c.frac_us as u64,
+        })
         .collect();
     let touts2 = touts.clone();
     let setup = move || {
@@ -154,7 +170,7 @@ pub fn run(s: &Scn, ctx: &mut RunCtx) -> RunOutput {
         let cancel = scn.cancel_mode;
         match scn.fixed_timeout {
             Some(t) => {
-                let d = if t == u64::MAX { Duration::MAX } else { Duration::from_millis(t) };
+                let d = if t == u64::MAX { Duration::MAX } else { Duration::from_micros(t * 1000 + scn.fixed_frac_us as u64) };
                 if scn.flag_first {
                     finish_builder!(TimeLimiterLayer::builder().cancel_running_future(cancel).timeout_duration(d))
                 } else {
@@ -163,7 +179,7 @@ pub fn run(s: &Scn, ctx: &mut RunCtx) -> RunOutput {
             }
             None => {
                 let tv = touts2.clone();
-                let f = move |r: &Req| if tv[r.id as usize] == u64::MAX { Duration::MAX } else { Duration::from_millis(tv[r.id as usize]) };
+                let f = move |r: &Req| if tv[r.id as usize] == u64::MAX { Duration::MAX } else { Duration::from_micros(tv[r.id as usize]) };
                 if scn.flag_first {
                     finish_builder!(TimeLimiterLayer::builder().cancel_running_future(cancel).timeout_fn(f))
                 } else {
@@ -186,13 +202,19 @@ pub fn run(s: &Scn, ctx: &mut RunCtx) -> RunOutput {
         }
         let c = &s.calls[i];
         let a = t.first_poll_us;
-        let tout = touts[i].saturating_mul(1000);
+        let tout = touts[i];
         let lat = if c.beh.out == Outcome::Never { None } else { Some(c.beh.lat_ms * 1000) };
         let mine: Vec<_> = calls.iter().filter(|x| x.req == i as u32).collect();
         if mine.len() > 1 {
             world::violation("C06.inner_once", "", format!("call {} reached the inner service {} times", i, mine.len()));
         }
         let deadline = a.saturating_add(tout);
+        // tokio's timers have millisecond resolution and round up: the timer of a deadline that
+        // is not a whole millisecond fires at the next one
+        let deadline_hi = if deadline == u64::MAX { u64::MAX } else { deadline.div_ceil(1000) * 1000 };
+        if deadline_hi != deadline {
+            world::probe("sub_millisecond_timeout");
+        }
         match t.status {
             Status::Resolved => {
                 let o = t.out.as_ref().unwrap();
@@ -206,8 +228,8 @@ pub fn run(s: &Scn, ctx: &mut RunCtx) -> RunOutput {
                 let inner_done_at = lat.map(|l| a + l);
                 let timed_out = o.err == Some("Timeout");
                 let expect_at = match inner_done_at {
-                    Some(d) if d <= deadline => d,
-                    _ => deadline,
+                    Some(d) if d <= deadline_hi => d,
+                    _ => deadline_hi,
                 };
                 if timed_out {
                     nontrivial = true;
@@ -222,7 +244,7 @@ pub fn run(s: &Scn, ctx: &mut RunCtx) -> RunOutput {
                 if !instant_ok {
                     world::violation(
                         "C06.resolve_instant",
-                        if t.end_us > deadline { "after_deadline" } else { "wrong_instant" },
+                        if t.end_us > deadline_hi { "after_deadline" } else { "wrong_instant" },
                         format!(
                             "call {} arrived {}us timeout {}us inner latency {:?}us: resolved at {}us, expected {}us",
                             i, a, tout, lat, t.end_us, expect_at
@@ -248,7 +270,7 @@ pub fn run(s: &Scn, ctx: &mut RunCtx) -> RunOutput {
                     if !good || !inner_possible {
                         world::violation("C06.result", "wrong_result", format!("call {} resolved with {:?} (scripted {:?}, inner done at {:?}, resolved at {})", i, o, c.beh.out, inner_done_at, t.end_us));
                     }
-                    let strictly_late = inner_done_at.map(|d| d > deadline).unwrap_or(true);
+                    let strictly_late = inner_done_at.map(|d| d > deadline_hi).unwrap_or(true);
                     if strictly_late && jump == 0 {
                         world::violation("C06.resolve_instant", "after_deadline", format!("call {} returned the inner result although it finished after the deadline", i));
                     }
@@ -256,10 +278,10 @@ pub fn run(s: &Scn, ctx: &mut RunCtx) -> RunOutput {
                 // what happened to the inner future
                 if let Some(m) = mine.first() {
                     if timed_out && jump == 0 {
-                        let strictly_late = inner_done_at.map(|d| d > deadline).unwrap_or(true);
+                        let strictly_late = inner_done_at.map(|d| d > deadline_hi).unwrap_or(true);
                         if s.cancel_mode {
                             if strictly_late {
-                                if !(m.how == Some(EndHow::Dropped) && m.end_us == Some(deadline)) {
+                                if !(m.how == Some(EndHow::Dropped) && m.end_us == Some(deadline_hi)) {
                                     world::violation("C06.cancel_mode", "", format!("call {} timed out at {}us but the inner future ended {:?} at {:?}", i, deadline, m.how, m.end_us));
                                 }
                                 world::probe("inner_dropped_at_deadline");
@@ -278,7 +300,7 @@ pub fn run(s: &Scn, ctx: &mut RunCtx) -> RunOutput {
                         }
                     }
                 }
-                if inner_done_at == Some(deadline) {
+                if inner_done_at == Some(deadline_hi) {
                     world::probe("latency_equals_timeout");
                 }
             }
